@@ -20,6 +20,24 @@ type pathEnd struct {
 	msg  string
 }
 
+type engineBug struct{ msg, istack, gstack string }
+
+// innermost keeps the frames of a Go stack trace below the last "panic(" line.
+func innermost(st string) string {
+	ls := strings.Split(st, "\n")
+	last := 0
+	for i, l := range ls {
+		if strings.HasPrefix(l, "panic(") {
+			last = i
+		}
+	}
+	ls = ls[last:]
+	if len(ls) > 16 {
+		ls = ls[:16]
+	}
+	return strings.Join(ls, "\n")
+}
+
 // goPanic is a panic of the interpreted program.
 type goPanic struct {
 	val   value // Iface
@@ -86,6 +104,7 @@ type Interp struct {
 	mapOrderAll bool
 	depth     int
 	knownActive string
+	pathStubs   map[string]value
 	inited    map[*ssa.Package]bool
 
 	// threads
@@ -166,6 +185,10 @@ func (in *Interp) global(g *ssa.Global) *value {
 // unsupported callees yield zero values.
 func (in *Interp) lazyInit(pkg *ssa.Package) {
 	in.inited[pkg] = true
+	pp := pkg.Pkg.Path()
+	if pp == "runtime" || pp == "syscall" || pp == "os" || pp == "reflect" || pp == "unsafe" || strings.HasPrefix(pp, "runtime/") || strings.HasPrefix(pp, "internal/") || strings.HasPrefix(pp, "golang.org/x/sys") {
+		return
+	}
 	initFn := pkg.Func("init")
 	if initFn == nil || initFn.Blocks == nil {
 		return
@@ -182,6 +205,10 @@ func (in *Interp) lazyInit(pkg *ssa.Package) {
 				return
 			}
 			if _, ok := r.(*goPanic); ok {
+				return
+			}
+			if eb, ok := r.(*engineBug); ok {
+				in.ex.noteStub("init of " + pp + " aborted: " + eb.msg)
 				return
 			}
 			panic(r)
@@ -454,6 +481,12 @@ func (in *Interp) callValue(caller *frame, fv value, args []value, pos token.Pos
 
 func (in *Interp) callFn(caller *frame, fn *ssa.Function, args []value, env []value) value {
 	name := fn.String()
+	if len(in.pathStubs) > 0 {
+		if st, ok := in.pathStubs[name]; ok {
+			in.ex.noteStub(name + " (harness stub)")
+			return in.callValue(caller, st, args, 0)
+		}
+	}
 	if fn.Parent() == nil {
 		if ext, ok := in.extern[name]; ok {
 			in.ex.noteStub(name)
@@ -546,13 +579,22 @@ func (in *Interp) runFrame(fr *frame) {
 		if r == nil {
 			return
 		}
-		switch r.(type) {
+		switch rr := r.(type) {
 		case pathEnd:
 			panic(r)
 		case *goPanic:
-		default:
-			// engine bug: surface with context
+		case *engineBug:
 			panic(r)
+		default:
+			// engine bug: surface with context (captured once, at the innermost frame)
+			var sb strings.Builder
+			for f := fr; f != nil; f = f.caller {
+				sb.WriteString("\n    in " + f.fn.String())
+				if in.sch.curPos != nil && f == fr {
+					sb.WriteString(" at " + in.posStr(in.sch.curPos.Pos()) + ": " + in.sch.curPos.String())
+				}
+			}
+			panic(&engineBug{msg: fmt.Sprint(rr), istack: sb.String(), gstack: innermost(stackTrace())})
 		}
 		fr.panicking = true
 		fr.panicVal = r
